@@ -173,12 +173,22 @@ PARTIAL_ADAPTORS = ('Iterator::take', 'Iterator::skip', 'Iterator::step_by', 'It
 ITER_SOURCES = ('core::slice::<impl [T]>::iter', 'std::iter::IntoIterator::into_iter', 'core::slice::<impl [T]>::iter_mut')
 
 
-def rule_loop_coverage(ctx, cfg='prod-all', fns=LOOP_FNS):
+def rule_loop_coverage(ctx, cfg='prod-all', fns=LOOP_FNS, follow_prefix=None):
     """every parameter-rooted vector that is folded is visited completely.  Index loops: the loop starts at 0 and its end bound is at
     least the length of the vector (the bounds check gives the other direction).  Iterator forms: the vector is the source of an iterator
     chain without a truncating adaptor; when zipped, the partner is provably at least as long.  Forms the analysis cannot judge (the whole
     vector handed to another function) are reported as undecided, never as a violation."""
     prog, za, eng = ctx.prog(cfg), ctx.zone(cfg), ctx.eng(cfg)
+    fns = list(fns)
+    if follow_prefix:
+        # helpers of the same module that the listed functions call (a fold moved into a shared helper is still judged)
+        from flow import walk
+        for root in list(fns):
+            if root not in prog.bodies:
+                raise AnchorMissing(root)
+            for fr in walk(eng, root, include_closures=False):
+                if fr.path not in fns and fr.path.startswith(follow_prefix) and fr.path in prog.bodies and prog.bodies[fr.path].kind != 'Closure':
+                    fns.append(fr.path)
     for fn in fns:
         b = prog.bodies.get(fn)
         if b is None:
@@ -378,3 +388,91 @@ def rule_index_translation(ctx, cfg='prod-all'):
             gt = zp.term_op(t['args'][2])
             yield Ob('RF-B', '%s#generator-count' % p.path, gt == ('len:_%s' % '', 0) or (gt is not None and gt[1] == 1 and (gt[0] or '').startswith('len:')),
                      'signer generator count is len(messages) + 1', p.span, fact=tfmt(gt), expected='len(messages) + 1')
+
+
+# ------------------------------------------------------------------ serde writer / reader agreement (derived impls, after macro expansion)
+def _str_consts(t):
+    return [a.get('disp', '').strip('"') for a in t['args'] if a['k'] == 'const' and 'str' in a.get('ty', '')]
+
+
+def rule_serde_symmetry(ctx, cfg='prod-all', scope=('bbsplus::keys::', 'bbsplus::signature::', 'bbsplus::proof::', 'bbsplus::commitment::', 'bbsplus::blind::',
+                                                     'keys::pair::', 'schemes::generics::', 'utils::message::bbsplus_message'), min_types=12):
+    """for every type whose Serialize and Deserialize impls are compiled into the crate (derive output is analysed after expansion, so
+    #[serde(...)] attributes are seen as the code they generate): (1) every field of the type is written unconditionally - the
+    serialize_field call dominates SerializeStruct::end, no skip_field; (2) every name written is a name the reader's field visitor
+    recognises; (3) every field the reader refuses to do without (missing_field) is one the writer always writes; (4) enum variant names
+    written are variant names read.  Breaking any of these makes serialize -> deserialize lose or reject a value for some input."""
+    prog = ctx.prog(cfg)
+    n = 0
+    for p, b in sorted(prog.bodies.items()):
+        tr = b.j.get('impl_trait') or ''
+        st = b.j.get('impl_self') or ''
+        if not (tr.endswith('::Serialize') and p.endswith('::serialize')):
+            continue
+        if not st.startswith(scope):
+            continue
+        adt_path = st.split('<')[0]
+        adt = prog.adts.get(adt_path)
+        de_prefix = "Deserialize<'de> for %s>::deserialize" % st
+        de = {q: bb for q, bb in prog.bodies.items() if de_prefix in q}
+        kinds = [(t.get('callee') or '').split('::')[-1] for bi, t in b.calls()]
+        if 'serialize_struct' in kinds:
+            end_blocks = [bi for bi, t in b.calls() if (t.get('callee') or '').endswith('SerializeStruct::end')]
+            w_all, w_unc, skips = [], [], []
+            for bi, t in b.calls():
+                cal = (t.get('callee') or '')
+                if cal.endswith('SerializeStruct::serialize_field'):
+                    nm = (_str_consts(t) or ['?'])[0]
+                    w_all.append(nm)
+                    if end_blocks and all(b.dominates(bi, e) for e in end_blocks):
+                        w_unc.append(nm)
+                elif cal.endswith('SerializeStruct::skip_field'):
+                    skips.append((_str_consts(t) or ['?'])[0])
+            fields = [f['name'] for v in (adt or {}).get('variants', []) for f in v['fields']] if adt else None
+            n += 1
+            key = '%s#serde' % adt_path
+            yield Ob('RF-N', key + ':every-field-always-written', fields is not None and len(w_unc) == len(fields) and not skips and len(end_blocks) >= 1,
+                     'every field of the type is written on every path of the Serialize impl', b.span,
+                     fact={'fields': fields, 'always_written': w_unc, 'conditionally_written': [x for x in w_all if x not in w_unc], 'skipped': skips},
+                     expected='one unconditional serialize_field per field')
+            if not de:
+                if b.from_expansion:
+                    yield Ob('RF-N', key + ':reader', False, 'derived Serialize without a Deserialize impl in the crate', b.span, fact=None, expected='Deserialize impl')
+                continue
+            known, required = set(), set()
+            custom = True
+            for q, bb in de.items():
+                if '__FieldVisitor' in q and q.endswith('::visit_str'):
+                    custom = False
+                    for bi, t in bb.calls():
+                        if (t.get('callee') or '').endswith('::eq'):
+                            known |= set(_str_consts(t))
+                if '__Visitor' in q and q.endswith('::visit_map'):
+                    for bi, t in bb.calls():
+                        if (t.get('callee') or '').endswith('::missing_field'):
+                            required |= set(_str_consts(t))
+            if custom:
+                continue      # hand-written reader: decided by the byte-layout rules, not here
+            yield Ob('RF-N', key + ':names-written-are-read', set(w_all) <= known, 'every field name written is recognised by the reader', b.span,
+                     fact={'written': w_all, 'recognised': sorted(known)}, expected='written ⊆ recognised')
+            yield Ob('RF-N', key + ':required-are-always-written', required <= set(w_unc), 'every field the reader requires is always written', b.span,
+                     fact={'required': sorted(required), 'always_written': w_unc}, expected='required ⊆ always written')
+        elif any(k.endswith('_variant') for k in kinds):
+            written = set()
+            for bi, t in b.calls():
+                if (t.get('callee') or '').split('::')[-1].endswith('_variant'):
+                    cs = _str_consts(t)
+                    if len(cs) >= 2:
+                        written.add(cs[1])
+            known = set()
+            for q, bb in de.items():
+                if '__FieldVisitor' in q and q.endswith('::visit_str'):
+                    for bi, t in bb.calls():
+                        if (t.get('callee') or '').endswith('::eq'):
+                            known |= set(_str_consts(t))
+            if not de:
+                continue
+            n += 1
+            yield Ob('RF-N', '%s#serde:variants-written-are-read' % adt_path, written <= known and bool(written), 'every variant name written is recognised by the reader',
+                     b.span, fact={'written': sorted(written), 'recognised': sorted(known)}, expected='written ⊆ recognised')
+    yield Ob('RF-N', 'crate#serde-type-census', n >= min_types, 'types with compiled Serialize impls examined', '', fact=n, expected='>= %d' % min_types, nontrivial=False)
